@@ -263,7 +263,9 @@ def run(tier, seed, agg):
     k = seed % len(cases)
     for r in pmap(run_case, cases[k:] + cases[:k]):
         agg.add(r)
-    acheck.run_cases(a_cases(tier), CLAUSES, agg, judge, seed)
+    ac = a_cases(tier)
+    ac += [dict(c, stateless=6 if tier == 'quick' else 8) for c in ac]
+    acheck.run_cases(ac, CLAUSES, agg, judge, seed)
     return dict(
         level="model_checking",
         rule="(1) all event sequences up to the depth bound over {push v, push v', pull(static input, t), pull(non-static input, t)}, t in {None, before, at, after} on a real static Output; "
